@@ -24,6 +24,9 @@ import XMT.CbkLemmas
 import XMT.CbkStream
 import XMT.DnsLemmas
 import XMT.DnsRoundtrip
+import XMT.HexLemmas
+import XMT.B64Lemmas
+import XMT.DnsAgree
 namespace XMT.Props.C07
 open XMT XMT.Wrap
 
@@ -270,5 +273,228 @@ theorem sendrecv_xor_cbk_dns {P : Type} (m : List Layer) (hm : ∀ L ∈ m, Prov
     simp only [Option.map_some, Option.some.injEq] at htr
     subst htr
     exact dnsTransform_lossless x.1 x.2.1 x.2.2 (ht x rfl)
+
+/-! ## Extension round 3 — encoding/hex and encoding/base64 are models, not parameters
+
+The `Hex` and `Base64` wrappers (c2/wrapper/simple.go) and the Base64(-shift) transform
+(c2/transform/base64.go) are thin calls into the Go standard library. XMT/HexCodec.lean and
+XMT/B64Codec.lean transcribe the library's `Encode`/`Decode` and the streaming encoder / decoder
+state machines (`hex.NewEncoder/NewDecoder`, `base64.NewEncoder/NewDecoder` with `StdEncoding`); they
+are compared with the real library through the real wrappers on every run (groups hex-s3, b64-s3,
+stack-s3: every `Write` made below, every `Read` answered, error classes on malformed streams).
+The reader below is a `Src`: any list of pieces (empty ones = `(0, nil)` Reads), EOF delivered with or
+after the last bytes. -/
+
+/-- `hex.Decode(hex.Encode(x)) = x`, no error, for every byte string. -/
+theorem hex_decode_encode (x : Bytes) : HexCodec.decode (HexCodec.encode x) = (x, none) :=
+  HexCodec.decode_encode x
+
+/-- **The Hex wrapper is lossless for every payload, every chunking of the writes and of the reads.**
+For every list of `Write`s `ws`: what reaches the writer below (in chunks of at most
+`bufferSize/2` input bytes per `Write`, `Close` adds nothing) is the hex encoding of the
+concatenation; and for every way `cs` the wire is cut into pieces (empty pieces included), EOF arriving
+with (`we = true`) or after the last bytes, and every list `ks` of `Read` buffer sizes (0 included):
+the Reads deliver a prefix of the payload, the only error ever returned is `io.EOF`, exactly when the
+whole payload has been delivered; and Reads of any fixed positive size `k` deliver the whole payload
+followed by `io.EOF`. -/
+theorem hex_roundtrip (ws : List Bytes) :
+    (HexCodec.hexLayer.run ws).flatten = HexCodec.encode ws.flatten ∧
+    ∀ (cs : List Bytes) (we : Bool), cs.flatten = (HexCodec.hexLayer.run ws).flatten →
+      (∀ ks, ∃ rest, ws.flatten = (HexCodec.readSeq HexCodec.Dec.init ⟨cs, we⟩ ks).1.flatten ++ rest ∧
+        ((HexCodec.readSeq HexCodec.Dec.init ⟨cs, we⟩ ks).2 = none ∨
+          ((HexCodec.readSeq HexCodec.Dec.init ⟨cs, we⟩ ks).2 = some .eof ∧ rest = []))) ∧
+      (∀ k fuel, 0 < k → ws.flatten.length + cs.length + 1 < fuel →
+        HexCodec.readAll k fuel HexCodec.Dec.init ⟨cs, we⟩ = (ws.flatten, some .eof)) := by
+  refine ⟨HexCodec.hexLayer_run ws, fun cs we h => ?_⟩
+  have hi := HexCodec.inv_init cs we ws.flatten (by rw [h, HexCodec.hexLayer_run])
+  exact ⟨fun ks => HexCodec.readSeq_spec ks _ _ _ hi,
+    fun k fuel hk hf => HexCodec.readAll_spec k hk fuel _ _ _ hi hf⟩
+
+/-- The `Hex` wrapper is a good layer of the stack model (no assumption left). -/
+theorem hex_lossless : LGood HexCodec.hexLayer := HexCodec.hexLayer_good
+
+/-- `StdEncoding.Decode(StdEncoding.Encode(x)) = x`, no error, for every byte string (all three
+residues of the length mod 3, i.e. no, one and two padding characters). -/
+theorem base64_decode_encode (x : Bytes) : B64Codec.decode (B64Codec.encode x) = (x, none) :=
+  B64Codec.decode_encode x
+
+/-- **The Base64 wrapper is lossless for every payload, every chunking of the writes and of the
+reads.** The streaming encoder keeps up to two bytes between `Write`s and flushes a partial group
+(padded) only on `Close`: for every list of `Write`s the bytes below after `Close` are the base64
+encoding of the concatenation. The streaming decoder (refill until four characters, whole quanta
+decoded, left-over output kept in `out`): for every cut `cs` of the wire into pieces, EOF with or
+after the last bytes, and every list `ks` of `Read` sizes (0 included) the Reads deliver a prefix of
+the payload, the only error is `io.EOF`, exactly at the end; Reads of any fixed positive size deliver
+the whole payload followed by `io.EOF`. -/
+theorem base64_roundtrip (ws : List Bytes) :
+    (B64Codec.b64Layer.run ws).flatten = B64Codec.encode ws.flatten ∧
+    ∀ (cs : List Bytes) (we : Bool), cs.flatten = (B64Codec.b64Layer.run ws).flatten →
+      (∀ ks, ∃ rest, ws.flatten = (B64Codec.readSeq B64Codec.Dec.init ⟨cs, we⟩ ks).1.flatten ++ rest ∧
+        ((B64Codec.readSeq B64Codec.Dec.init ⟨cs, we⟩ ks).2 = none ∨
+          ((B64Codec.readSeq B64Codec.Dec.init ⟨cs, we⟩ ks).2 = some .eof ∧ rest = []))) ∧
+      (∀ k fuel, 0 < k → ws.flatten.length + 1 < fuel →
+        B64Codec.readAll k fuel B64Codec.Dec.init ⟨cs, we⟩ = (ws.flatten, some .eof)) := by
+  refine ⟨B64Codec.b64Layer_run ws, fun cs we h => ?_⟩
+  have hi := B64Codec.invB_init cs we ws.flatten (by rw [h, B64Codec.b64Layer_run])
+  exact ⟨fun ks => B64Codec.readSeq_spec ks _ _ _ hi,
+    fun k fuel hk hf => B64Codec.readAll_spec k hk fuel _ _ _ hi hf⟩
+
+/-- The `Base64` wrapper is a good layer of the stack model (no assumption left); a second `Close`
+writes nothing. -/
+theorem base64_lossless : LGood B64Codec.b64Layer := B64Codec.b64Layer_good
+
+/-- The Base64(-shift) transform with the concrete codec: `B64(shift).Read(B64(shift).Write(p)) = p`
+for every shift byte and payload, nothing assumed about base64. -/
+theorem b64transform_roundtrip (shift : UInt8) (p : Bytes) :
+    B64Codec.transformRead shift (B64Codec.transformWrite shift p) = some p :=
+  B64Codec.transform_roundtrip shift p
+
+/-- The concrete transform is the parametric one of `b64shift_roundtrip` instantiated with the
+model of `StdEncoding` (so the differential ops `b64w`/`b64r` and `b64tw`/`b64td` are about the same
+function). -/
+theorem b64transform_is_instance (shift : UInt8) (p : Bytes) :
+    B64Codec.transformWrite shift p = b64Write B64Codec.encode shift p :=
+  B64Codec.transformWrite_eq shift p
+
+/-- the Base64(-shift) transform as a `Transform` of the send/receive composition -/
+def b64Transform (shift : UInt8) : Transform where
+  write x := some (B64Codec.transformWrite shift x)
+  read y := B64Codec.transformRead shift y
+
+theorem b64Transform_lossless (shift : UInt8) :
+    ∀ x, ∃ y, (b64Transform shift).write x = some y ∧ (b64Transform shift).read y = some x :=
+  fun x => ⟨_, rfl, B64Codec.transform_roundtrip shift x⟩
+
+/-- a layer covered without assumptions: XOR, CBK (round 2), Hex, Base64 (this round) -/
+def ProvedLayer3 (L : Layer) : Prop :=
+  ProvedLayer L ∨ L = HexCodec.hexLayer ∨ L = B64Codec.b64Layer
+
+theorem provedLayer3_good {L : Layer} (h : ProvedLayer3 L) : LGood L := by
+  rcases h with h | rfl | rfl
+  · exact provedLayer_good h
+  · exact hex_lossless
+  · exact base64_lossless
+
+/-- **Stack theorem with NO assumed layer**: any stack (any depth, any order, any keys) made of XOR,
+CBK, Hex and Base64 wrappers returns what was written, for every chunking of the writes. -/
+theorem stack_roundtrip_concrete (m : List Layer) (h : ∀ L ∈ m, ProvedLayer3 L) (ws : List Bytes) :
+    multiUnwrap m ((multiWrap m sink).run ws) = some ws.flatten :=
+  stack_roundtrip m (fun L hL => provedLayer3_good (h L hL)) ws
+
+/-- the transforms a profile can carry -/
+inductive TSpec
+  | dns (server : Bool) (dom : Bytes) (rs : List (Nat → UInt8))
+  | b64 (shift : UInt8)
+
+def TSpec.transform : TSpec → Transform
+  | .dns server dom rs => dnsTransform server dom rs
+  | .b64 shift => b64Transform shift
+
+def TSpec.ok : TSpec → Prop
+  | .dns _ dom _ => dom.length ≤ 255
+  | .b64 _ => True
+
+/-- **Closed instance of `sendrecv`**: a packet sent through ANY stack of XOR, CBK, Hex and Base64
+wrappers and ANY transform a profile can carry (none, DNS in either mode with a domain of at most 255
+bytes, Base64 with any shift) and read back through the receive path is the packet that was sent, for
+any packet codec with a round trip (C01). No hypothesis about a wrapper, a codec of the standard
+library or a transform is left. -/
+theorem sendrecv_concrete {P : Type} (m : List Layer) (hm : ∀ L ∈ m, ProvedLayer3 L)
+    (t : Option TSpec) (ht : ∀ x, t = some x → x.ok)
+    (marshal : P → List Bytes) (unmarshal : Bytes → Option P)
+    (hp : ∀ p, unmarshal (marshal p).flatten = some p) (p : P) :
+    ∃ wire, writePacket (some (multiWrap m sink)) (t.map TSpec.transform) (marshal p) = some wire ∧
+      readPacket (some (multiUnwrap m)) (t.map TSpec.transform) unmarshal wire = some p := by
+  apply sendrecv m (fun L hL => provedLayer3_good (hm L hL)) _ _ marshal unmarshal hp p
+  intro tr htr
+  cases t with
+  | none => simp at htr
+  | some x =>
+    simp only [Option.map_some, Option.some.injEq] at htr
+    subst htr
+    cases x with
+    | dns server dom rs => exact dnsTransform_lossless server dom rs (ht _ rfl)
+    | b64 shift => exact b64Transform_lossless shift
+
+/-! ### One DNS reader model (review finding 2b) -/
+
+/-- **The two DNS reader models agree wherever either succeeds**: the reader model of this property
+(`Dns.read`, written before the reader's repair) returns a payload and no error exactly when the
+reader model tied to the repaired code on hostile bytes (`Decode.Dns.read`, property C04) does, and
+the payloads are equal. They differ only in which error a malformed message gets
+(`DnsAgree.differ_short`, `DnsAgree.differ_errvalue`). -/
+theorem dns_reader_models_agree (b w : Bytes) :
+    Decode.Dns.read b = .ok w ↔ ∃ ws, Dns.read b = (ws, none) ∧ ws.flatten = w :=
+  DnsAgree.read_agrees_iff b w
+
+/-- …and fail on the same inputs. -/
+theorem dns_reader_models_fail_together (b : Bytes) :
+    (∃ e, Decode.Dns.read b = .err e) ↔ ∃ ws e, Dns.read b = (ws, some e) :=
+  DnsAgree.read_err_iff b
+
+/-- `dns_roundtrip` against the C04 reader model (the one tied to the repaired reader): for both
+modes, every domain of at most 255 bytes, every filler and every payload, the reader returns exactly
+the payload. -/
+theorem dns_roundtrip_c04 (server : Bool) (dom : Bytes) (rs : List (Nat → UInt8)) (b : Bytes)
+    (hdom : dom.length ≤ 255) :
+    ∃ pkts, Dns.write server dom rs b = some pkts ∧ Decode.Dns.read pkts.flatten = .ok b :=
+  DnsAgree.dns_roundtrip_c04 server dom rs b hdom
+
+/-! ### Which wrappers exist (tie obligations over regenerated syntactic facts) -/
+
+/-- how a wrapper implementation of c2/wrapper is covered by the theorems of this file -/
+inductive Coverage
+  | proved      -- a layer model with `LGood` proved
+  | parameter   -- `LGood` is a hypothesis of `stack_roundtrip` for this layer (round-tripped by the oracles)
+  deriving DecidableEq, Repr
+
+/-- every type of c2/wrapper/*.go with a `Wrap` and an `Unwrap` method (for the enum-like ones: every
+constant), with its coverage. A wrapper added to the package changes `Facts.wrapperKinds` and breaks
+`wrapper_kinds_covered` until it gets a layer model (or is listed as a parameter). -/
+def wrapperCoverage : List (String × Coverage) :=
+  [("Block", .proved),            -- block_lossless: CFB over any block function
+   ("CBK", .proved),              -- cbk_stream
+   ("XOR", .proved),              -- xor_lossless
+   ("compress:Gzip", .parameter),
+   ("compress:Zlib", .parameter),
+   ("simple:Base64", .proved),    -- base64_lossless
+   ("simple:Hex", .proved)]       -- hex_lossless
+
+theorem wrapper_kinds_covered : Facts.wrapperKinds = wrapperCoverage.map (·.1) := rfl
+
+/-- the `Hex` / `Base64` wrappers are exactly the standard library constructors the models transcribe
+(`StdEncoding`, `data.WriteCloser` around the hex encoder) -/
+theorem simple_wrapper_calls : Facts.simpleWrapperCalls =
+    ["Unwrap Base64: return base64.NewDecoder(base64.StdEncoding, r), nil",
+     "Unwrap Hex: return hex.NewDecoder(r), nil",
+     "Wrap Base64: return base64.NewEncoder(base64.StdEncoding, w), nil",
+     "Wrap Hex: return data.WriteCloser(hex.NewEncoder(w)), nil"] := rfl
+
+/-- the buffer sizes of the standard library the chunk behaviour of the models depends on -/
+theorem codec_buffer_sizes :
+    Facts.hexBufferSize = 1024 ∧ Facts.b64EncOut = 1024 ∧ Facts.b64DecBuf = 1024 := by decide
+
+/-! ### Non-vacuity (round 3) -/
+
+-- a hex stream cut inside a pair, EOF with the last bytes, Reads of 1, 0 and 5 bytes
+example : HexCodec.readSeq HexCodec.Dec.init ⟨[[48], [49, 102], [], [70]], true⟩ [1, 0, 5, 5, 5, 5]
+    = ([[], [], [1], [], [255]], some .eof) := by decide
+-- malformed hex: odd length → unexpected EOF; bad alphabet → InvalidByteError
+example : (HexCodec.readSeq HexCodec.Dec.init ⟨[[48, 49, 50]], false⟩ [4, 4, 4]).2 = some .ueof := by decide
+example : (HexCodec.readSeq HexCodec.Dec.init ⟨[[48, 103]], false⟩ [4]).2 = some (.invalidByte 103) := by decide
+-- base64: "Zm9vYmE=" written as 2+0+3 bytes, wire cut inside a quantum, Reads of 2 bytes
+example : (B64Codec.b64Layer.run [[102, 111], [], [111, 98, 97]]).flatten = [90, 109, 57, 118, 89, 109, 69, 61] := by decide
+example : B64Codec.readAll 2 9 B64Codec.Dec.init ⟨[[90, 109, 57], [118, 89, 109, 69], [], [61]], true⟩
+    = ([102, 111, 111, 98, 97], some .eof) := by decide
+-- malformed base64: missing padding → unexpected EOF (stream) / corrupt (whole buffer); data after padding
+example : (B64Codec.readSeq B64Codec.Dec.init ⟨[[90, 109, 57, 118, 89, 109, 69]], false⟩ [9, 9]).2 = some .ueof := by decide
+example : (B64Codec.decode [90, 109, 57, 118, 89, 109, 69]).2 = some .corrupt := by decide
+example : (B64Codec.decode [89, 81, 61, 61, 89, 81, 61, 61]).2 = some .corrupt := by decide
+-- a stack Hex ∘ Base64 ∘ XOR round-trips in the model, and the wire is not the payload
+example : multiUnwrap [HexCodec.hexLayer, B64Codec.b64Layer, xorLayer [7, 9]]
+    ((multiWrap [HexCodec.hexLayer, B64Codec.b64Layer, xorLayer [7, 9]] sink).run [[1, 2], [3, 4, 5]])
+    = some [1, 2, 3, 4, 5] := by decide
+example : ProvedLayer3 HexCodec.hexLayer ∧ ProvedLayer3 B64Codec.b64Layer := ⟨Or.inr (Or.inl rfl), Or.inr (Or.inr rfl)⟩
+example : (TSpec.b64 3).ok ∧ (TSpec.dns true [97, 46, 98] []).ok := ⟨trivial, by simp [TSpec.ok]⟩
 
 end XMT.Props.C07
